@@ -27,6 +27,7 @@ WHAT = {
  "slice the cumsum input through a mapping": ("C13", "Grid.cumsum (and cumint) with a shift that trims the input (center->left/inner, right/outer->center) along a dimension called 'drop' raised ValueError 'conflicting sizes': data.isel(**{dim: ...}) turned the dimension name into isel's own keyword"),
  "swap dimension names across an axis-swapping face link": ("C13", "diff / interp / pad across an axis-swapping face link raised ValueError 'conflicting sizes' when the array has a dimension called <dimension>+'dummy' (e.g. horizontal dimensions 'x' and 'xdummy'): the swap went through a temporary dimension of that name"),
  "rename the cumsum dimension through a mapping": ("C13", "Grid.cumsum / cumint along a dimension called 'new_name_or_name_dict' returned the result on the old dimension and renamed the array instead (padded.rename(**{dim: new}) turned the dimension name into rename's own keyword)"),
+ "one-shot iterable": ("C01", "Grid.diff / interp / min / max with the axis names given as an iterator, generator or map object (e.g. grid.diff(da, iter(['X']))) returned the input unchanged: the names were walked twice and the second walk was empty"),
  "narrower than its halo": ("C06", "apply_as_grid_ufunc(map_overlap=True) with a boundary width >= 2 on data with a chunk smaller than the width along the operated axis (e.g. length 4 chunked (1,1,2), width (2,0)) raised ValueError 'adjust_chunks specified with N blocks'"),
  "temporary dimension names": ("C13", "transform failed or lost a coordinate when the data had a dimension named 'temp_dim_target', 'temp_unique' or 'remapped'"),
 }
